@@ -374,7 +374,7 @@ func manySegmentsBody(c *mc.Ctx, item int) mc.Verdict {
 			st.segs = append(st.segs, seg{1 + i%2, (i / 2) % 2})
 		}
 	}
-	st.segs = append(st.segs, seg{1, 5}, seg{2, 3})
+	st.segs = append(st.segs, seg{1, 40}, seg{1, 5}, seg{2, 3})
 	st.ending = endMarker
 	data, want, _ := st.build()
 	src := env.NewSource(data)
@@ -399,6 +399,13 @@ func manySegmentsBody(c *mc.Ctx, item int) mc.Verdict {
 		got = append(got, buf[:n]...)
 		if err != nil {
 			break
+		}
+		if n < len(buf) && len(got) < len(want) {
+			// "always filling the caller's buffer unless the stream ends": also when the source idles
+			what := fmt.Sprintf("%d segments (%s) followed by text5, bin3 and the end marker; caller buffer %d; source mode %d", k, manyPatterns[pat], bufSize, mode)
+			v := mc.Fail("C14:many-segments:short-read", fmt.Sprintf("%s: Read returned %d of %d bytes without an error at output offset %d of %d", what, n, len(buf), len(got)-n, len(want)))
+			v.Render = what
+			return v
 		}
 	}
 	c.Steps(src.Calls)
@@ -595,6 +602,73 @@ func bigBufferBody(c *mc.Ctx, item int) mc.Verdict {
 	return mc.Pass("filled", true)
 }
 
+// hugeBody: a segment may be as long as its 32-bit length field says.  The data
+// comes from a synthetic source (nothing of that size is kept in memory); the
+// decoder's output is counted and its tail compared.
+type synthSource struct {
+	head  []byte // header of the huge segment
+	n     int64  // payload bytes still to deliver
+	tail  []byte // what follows the huge segment
+	phase int
+}
+
+func (s *synthSource) Read(p []byte) (int, error) {
+	switch {
+	case len(s.head) > 0:
+		k := copy(p, s.head)
+		s.head = s.head[k:]
+		return k, nil
+	case s.n > 0:
+		k := int64(len(p))
+		if k > s.n {
+			k = s.n
+		}
+		for i := int64(0); i < k; i++ {
+			p[i] = 'x'
+		}
+		s.n -= k
+		return int(k), nil
+	case len(s.tail) > 0:
+		k := copy(p, s.tail)
+		s.tail = s.tail[k:]
+		return k, nil
+	}
+	return 0, io.EOF
+}
+
+var hugeLens = []int64{1<<31 - 1, 1 << 31, 1<<31 + 1, 1<<32 - 1}
+
+func hugeBody(c *mc.Ctx, item int) mc.Verdict {
+	n := hugeLens[item]
+	src := &synthSource{head: []byte{0x80, 1, byte(n), byte(n >> 8), byte(n >> 16), byte(n >> 24)}, n: n,
+		tail: []byte{0x80, 1, 3, 0, 0, 0, 'E', 'N', 'D', 0x80, 2, 1, 0, 0, 0, 0xAB, 0x80, 3}}
+	r := pfb.Decode(src)
+	buf := make([]byte, 1<<20)
+	var total int64
+	var last []byte
+	var err error
+	for {
+		var k int
+		k, err = r.Read(buf)
+		total += int64(k)
+		last = append(last, buf[:k]...)
+		if len(last) > 16 {
+			last = last[len(last)-16:]
+		}
+		if err != nil {
+			break
+		}
+	}
+	c.Step()
+	what := fmt.Sprintf("text segment of %d bytes followed by the text segment END, the binary segment AB and the end marker", n)
+	if err != io.EOF || total != n+3+2 || !bytes.HasSuffix(last, []byte("xENDab")) {
+		v := mc.Fail("C14:huge-segment:wrong-output", fmt.Sprintf("%s: %d bytes of output ending in %q, error %v; expected %d bytes ending in \"xENDab\" and io.EOF", what, total, last, err, n+5))
+		v.Render = what
+		return v
+	}
+	return mc.Pass("decoded", true)
+}
+
 func main() {
 	mc.Main(mc.Program{
 		Property: "C14",
@@ -641,7 +715,7 @@ func main() {
 				Items:  len(manyCounts) * len(manyPatterns) * len(manyBufs) * 3,
 				Body:   manySegmentsBody,
 				Budget: budget,
-				Rule:   fmt.Sprintf("item = number of leading segments %v x pattern %q x caller buffer %v x source {full reads, one byte per read, every other call an empty read (0, nil)}: the leading segments are followed by a 5-byte text segment, a 3-byte binary segment and the end marker; the output must be exactly the segment contents and end with io.EOF; non-trivial = all", manyCounts, manyPatterns, manyBufs),
+				Rule:   fmt.Sprintf("item = number of leading segments %v x pattern %q x caller buffer %v x source {full reads, one byte per read, every other call an empty read (0, nil)}: the leading segments are followed by a 40-byte and a 5-byte text segment, a 3-byte binary segment and the end marker; the output must be exactly the segment contents, every Read before the end must fill the buffer, and the stream ends with io.EOF; non-trivial = all", manyCounts, manyPatterns, manyBufs),
 			})
 			fams = append(fams, mc.Family{
 				Name:   "bytes-after-the-end-marker",
@@ -663,6 +737,13 @@ func main() {
 				Body:   bigBufferBody,
 				Budget: budget,
 				Rule:   fmt.Sprintf("item = caller buffer %v x a segment of %v bytes x {text, binary}: every Read before the end of the stream must fill the buffer completely, the output must be exact; non-trivial = all", bigBufs, bigSegs),
+			})
+			fams = append(fams, mc.Family{
+				Name:   "segments-as-long-as-the-length-field-allows",
+				Items:  len(hugeLens),
+				Body:   hugeBody,
+				Budget: budget,
+				Rule:   fmt.Sprintf("item = a text segment of %v bytes streamed from a synthetic source, followed by two small segments and the end marker; caller buffer 1 MiB: the number of output bytes and the end of the output must be exact; non-trivial = all", hugeLens),
 			})
 			return append(fams,
 				mc.Family{
